@@ -57,6 +57,16 @@ def skeletons(tier):
     progs.append(("late-helper", {
         "funcs": [mkfunc("R", calls=[call("K")], rich=False), mkfunc("K", kind="plain", reads=["LV"])],
         "vars": {"LV": 3}, "late": ["LV"], "order": ["R", "K"]}))
+    # an attribute that does not exist yet on the object a dotted name resolves to (read guarded), added later
+    progs.append(("late-attribute", {
+        "funcs": [mkfunc("R", calls=[call("D")], reads=["cfg.Z?", "Cfg.W?"], rich=False), mkfunc("D", kind="plain", reads=["cfg.Z?"], rich=False)],
+        "vars": {}, "classes": {"Cfg": {"X": 1}, "C1": {"Y": 10}}, "bindings": {"cfg": "C1"},
+        "addable_attrs": [["C1", "Z"], ["Cfg", "W"]]}))
+    # a plain helper living in the package's own __init__.py
+    progs.append(("helper-in-package-init", {
+        "funcs": [mkfunc("R", calls=[call("K", "pkgattr"), call("D")], rich=False), mkfunc("K", kind="plain", module="i"),
+                  mkfunc("D", kind="plain", calls=[call("K2", "pkgattr")], rich=False), mkfunc("K2", kind="plain", module="i", rich=False)],
+        "vars": {}}))
     # reference cycles: a function calling itself, and two functions calling each other (guarded by the argument)
     progs.append(("cycles", {
         "funcs": [mkfunc("R", calls=[call("R", "rec"), call("D", "rec")], rich=False), mkfunc("D", calls=[call("R", "rec"), call("P", "rec")], rich=False),
@@ -162,7 +172,7 @@ def history_case(args):
                     site = sites[k - 1] if k > 0 else ("initial", None, None)
                     stale = k > 0 and g == got[k - 1]["results"][ci][0]
                     clause = "stale" if stale else ("raised" if g[0] == "exc" else "wrong-value")
-                    what = site[2] if site[0] == "feature" else (site[1] if site[0] in ("var", "varcopy", "classattr", "rebind") else "")
+                    what = site[2] if site[0] in ("feature", "addattr") else (site[1] if site[0] in ("var", "varcopy", "classattr", "rebind", "bvar") else "")
                     sig = "%s|%s:%s|%s|%s%s" % (delivery.split(":")[0] if clause != "stale" or ":" not in delivery else delivery,
                                                 site[0], what, site_role(p0, site, c[0]) if k > 0 else "-", clause,
                                                 "|via=" + c[3] if c[3] else "")
@@ -198,12 +208,12 @@ def run(ctx):
     for pi, (name, p0) in enumerate(sk):
         sites = progen.edit_sites(p0)
         sites = [s for s in sites if progen.apply_edit(p0, s) is not None]
-        has_container = any(isinstance(v, (list, dict)) for v in p0.get("vars", {}).values())
+        has_container = any(isinstance(v, (list, dict)) for v in p0.get("vars", {}).values()) or bool(p0.get("addable_attrs"))
         for delivery in ("xproc", "inproc:reexec", "inproc:reload") + (("inproc:mutate",) if has_container else ()):
             tasks.append((pi, (), delivery, ctx.tier))
             for s in sites:
-                if delivery == "inproc:mutate" and not (s[0] == "var" and isinstance(p0["vars"][s[1]], (list, dict))):
-                    continue  # in-place mutation of a tracked list / dict instead of re-binding the name
+                if delivery == "inproc:mutate" and not ((s[0] == "var" and isinstance(p0["vars"][s[1]], (list, dict))) or s[0] in ("addattr", "classattr")):
+                    continue  # in-place mutation of a tracked list / dict / live class object instead of re-binding the name
                 tasks.append((pi, (s,), delivery, ctx.tier))
                 if delivery != "inproc:reload" or thorough:
                     tasks.append((pi, (s, ("revert", 0, None)), delivery, ctx.tier))
